@@ -1108,6 +1108,7 @@ func fieldPath(a ssa.Value) string {
 // keeper-like type (named struct type called Keeper, msgAssigner, *Event, ...), i.e. an object
 // allocated at wiring time. Value receivers are copies and do not qualify.
 func longLived(f *ssa.Function, a ssa.Value) bool {
+	crossedPtr := false // the address was reached through a pointer / map held in a field
 	for i := 0; i < 12; i++ {
 		switch x := a.(type) {
 		case *ssa.FieldAddr:
@@ -1119,6 +1120,10 @@ func longLived(f *ssa.Function, a ssa.Value) bool {
 		case *ssa.UnOp:
 			if x.Op == token.MUL {
 				// load of a pointer/map field: continue to where the pointer is held
+				switch x.Type().Underlying().(type) {
+				case *types.Pointer, *types.Map:
+					crossedPtr = true
+				}
 				a = x.X
 				continue
 			}
@@ -1142,7 +1147,19 @@ func longLived(f *ssa.Function, a ssa.Value) bool {
 		case *ssa.FreeVar:
 			return false
 		case *ssa.Alloc:
-			// spilled value receiver: a copy
+			// spilled value receiver: a copy -- but what a pointer field of the copy points to is shared with every
+			// other copy of the keeper
+			if crossedPtr {
+				for _, r := range *x.Referrers() {
+					if st, isSt := r.(*ssa.Store); isSt && st.Addr == ssa.Value(x) {
+						if q, isP := st.Val.(*ssa.Parameter); isP {
+							if n := namedOf(q.Type()); n != nil && isWiringType(n) {
+								return true
+							}
+						}
+					}
+				}
+			}
 			return false
 		case *ssa.Global:
 			return true
